@@ -17,10 +17,10 @@ type Val struct {
 	L []Val
 }
 
-func I(n int) Val       { return Val{K: 'i', I: int64(n)} }
-func B(b []byte) Val    { return Val{K: 'x', B: append([]byte(nil), b...)} }
-func S(s string) Val    { return Val{K: 'x', B: []byte(s)} }
-func L(vs ...Val) Val   { return Val{K: 'l', L: append([]Val(nil), vs...)} }
+func I(n int) Val     { return Val{K: 'i', I: int64(n)} }
+func B(b []byte) Val  { return Val{K: 'x', B: append([]byte(nil), b...)} }
+func S(s string) Val  { return Val{K: 'x', B: []byte(s)} }
+func L(vs ...Val) Val { return Val{K: 'l', L: append([]Val(nil), vs...)} }
 func Bool(b bool) Val {
 	if b {
 		return I(1)
